@@ -9,6 +9,19 @@ RULE = ('datasets (sources, transforms, merges) under 1-2 stacked Filters whose 
 
 def run(tier, seed, res, lean):
     run_rel('C15', ['filter', 'filter', 'check_ids'], tier, seed, res, lean, RULE)
+    # the container CheckIds._connect builds against CM.Model.CheckIds (node_checkids_transparent / node_checkids_rejects are about it)
+    from .. import suite_factory
+    from ..par import pmap
+    from ..runner import Violation
+    outs = pmap(suite_factory.run_checkids_shard, [(seed * 1319 + i + 1, 12 if tier == 'quick' else 80) for i in range(16)])
+    bad = [b for o in outs for b in o[1]]
+    res.coverage['checkids_containers'] = sum(o[0]['checkids'] for o in outs)
+    res.coverage['checkids_rejected_previous'] = sum(sum(o[0]['errors'].values()) for o in outs)
+    if bad:
+        res.violations.append(Violation(
+            'c15-checkids-container-correspondence',
+            f'the container the real CheckIds builds and CM.Model.CheckIds.checkIdsBag differ: {str({k: v for k, v in bad[0].items() if k != "desc"})[:300]}',
+            {'suite': 'S-FACTORY/checkids', 'theorems': [t for t in lean['theorems'] if 'node_' in t], **bad[0]}, found_input=False))
 
 
 replay = replay_rel
